@@ -20,7 +20,11 @@ The generic `Table` machinery looks constants up by name; the schedule uses its 
 import os
 import re
 
-from extract_tables import REPO, ExtractError, Table, strip_rust_comments
+from extract_tables import REPO, Table, strip_rust_comments
+
+
+class ExtractError(ValueError):
+    """a ValueError so that `regenerate()` records it whether extract_tables runs as a module or as __main__"""
 
 RIPEMD = "src/hashing/ripemd160.rs"
 
